@@ -63,6 +63,22 @@ Set(il, x, ok) == /\ built
 Finish(ok) == /\ built
               /\ IF ok THEN UNCHANGED pvars ELSE seq' = <<>> /\ built' = FALSE
 
+(* clear(): the container stays, empty; n = the length reported afterwards *)
+Clear(n) == built /\ n = 0 /\ seq' = <<>> /\ UNCHANGED built
+(* resize(n): the common prefix is preserved; the elements a growing resize adds are not specified, *)
+(* so the event carries the complete read-back `out` taken right after the call, which defines them *)
+Resize(n, out) ==
+    /\ built
+    /\ Len(out) = n
+    /\ \A i \in 1..(IF n < Len(seq) THEN n ELSE Len(seq)) : out[i] = seq[i]
+    /\ seq' = out /\ UNCHANGED built
+(* a call that must not change the content (shrink_to_fit, clone and read the clone, reading through  *)
+(* another view such as ZipIntVec::inner): `out` is the complete read-back afterwards / of the copy *)
+Maintain(out) == built /\ out = seq /\ UNCHANGED pvars
+(* swap(other): the observed container now holds what the other one was built from (xs, the INPUT of *)
+(* the other); `out` is the complete read-back right after the swap                                   *)
+Swap(xs, out) == built /\ out = xs /\ seq' = xs /\ UNCHANGED built
+
 (* ---- reads ---- *)
 (* The ...OK operators are state predicates ("this answer is allowed now"); the actions add  *)
 (* UNCHANGED.  get(i) -> r, delivered as `how`: a value, None, Err, or a panic.              *)
@@ -101,6 +117,14 @@ Get2(il, r, how, panicOK) == Get2OK(il, r, how, panicOK) /\ UNCHANGED pvars
 FastGet(il, bits, r, how) == FastGetOK(il, bits, r, how) /\ UNCHANGED pvars
 GetBlock(bl, bs, ok, out) == GetBlockOK(bl, bs, ok, out) /\ UNCHANGED pvars
 LenIs(n) == built /\ n = Len(seq) /\ UNCHANGED pvars
+(* len() together with is_empty() *)
+LenEmpty(n, empty) == built /\ n = Len(seq) /\ empty = (Len(seq) = 0) /\ UNCHANGED pvars
+(* back(): the last element; on an empty vector refused (documented panic where panicOK) *)
+BackOK(r, how, panicOK) ==
+    /\ built
+    /\ r = (IF Len(seq) > 0 THEN Some(seq[Len(seq)]) ELSE None)
+    /\ IF r = None THEN how \in Refusals /\ (how = "panic" => panicOK) ELSE how = "value"
+Back(r, how, panicOK) == BackOK(r, how, panicOK) /\ UNCHANGED pvars
 
 (* a batch of single reads logged as one event: g[k].k names the call *)
 ProbeOK(p, panicOK) ==
